@@ -942,8 +942,12 @@ func Replay(c *core.Ctx, lines []string) {
 				n2 = mustDump(f[7])
 			}
 			doHeapOp(c, f[1], mustDump(f[2]), arg, n2)
+		case c.Gotree != "" && replayGlue(c, f):
+			// glue cases: the binary is run again on the recorded inputs (cmd.go)
 		case f[0] == "C15.glue":
-			// glue cases are regenerated by the CLI tier, not replayed
+			// no binary at hand: glue cases are regenerated by the CLI tier
+		case replayCmd(c, f):
+			// whole-input command cases (cmd.go)
 		case f[0] == "C15.hist" && len(f) >= 6:
 			runHistory(c, f[1], f[2], mustDump(f[3]), parsePath(f[4]), parseStrList(f[5]), 0)
 		default:
@@ -994,6 +998,9 @@ func Run(c *core.Ctx) {
 		}
 		for i := 0; i < c.Scale(80, 1000); i++ {
 			glueCases(c)
+		}
+		for i := 0; i < c.Scale(120, 900); i++ {
+			cmdCases(c)
 		}
 	}
 }
